@@ -368,7 +368,7 @@ class Node(ModelElement):
                                                                component_name=name)
 
         # disconnect the component's interfaces and their sub-interfaces from network services
-        self.topo._disconnect_interfaces(self.components[name].interface_list)
+        self.topo._disconnect_interfaces(self._get_component_by_id(node_id).interface_list)
         # remove component, its network service and interfaces (if present)
         self.topo.graph_model.remove_component_with_nss_cps_and_links(node_id=node_id)
 
@@ -520,9 +520,9 @@ class Node(ModelElement):
         for nid in node_if_list:
             i = self.__get_interface_by_id(nid)
             direct_interfaces.append(i)
-        cdict = self.__list_components()
-        for k, v in cdict.items():
-            direct_interfaces.extend(v.interface_list)
+        # by id: the name-keyed dictionary of components holds only one of two components of the same name
+        for cid in self.topo.graph_model.get_all_network_node_components(parent_node_id=self.node_id):
+            direct_interfaces.extend(self._get_component_by_id(cid).interface_list)
         return tuple(direct_interfaces)
 
     def get_component(self, name: str):
